@@ -1,5 +1,5 @@
 From Coq Require Import ZArith List.
-From PV Require Import Base.U64 C12.C12_Model C12.C12_Mem C12.C12_MemC C12.C12_Iov C12.C12_Deser C12.C12_Walk C12.C12_Flat C12.C12_Proofs C12.C12_Sep C12.C12_Wire C12.C12_RtD C12.C12_RtS C12.C12_Rt C12.C12_RtC C12.C12_RtC2 C12.C12_RtC3 C12.C12_Hx C12.C12_View C12.C12_Hb C12.C12_Hb2.
+From PV Require Import Base.U64 C12.C12_Model C12.C12_Mem C12.C12_MemC C12.C12_Iov C12.C12_Deser C12.C12_Walk C12.C12_Flat C12.C12_Proofs C12.C12_Sep C12.C12_Wire C12.C12_RtD C12.C12_RtS C12.C12_Rt C12.C12_RtC C12.C12_RtC2 C12.C12_RtC3 C12.C12_Hx C12.C12_View C12.C12_Hb C12.C12_Hb2 C12.C12_RtI C12.C12_Crc C12.C12_Ord.
 Theorem deser_in_bounds_no_trap : forall hstep sh m v,
   shape_wf sh -> inv m v ->
   exists t st, deserialize hstep cfg_final sh m v = Ok (t, st) /\ inv (d_mem st) (d_iov st) /\
@@ -159,3 +159,87 @@ Theorem ser_roundtrip_checksum_fragmentation_independent_partial : forall hstep,
   load m1' x1 4 = load m2' x2 4 /\ load32 m1' x1 = Ok (hash_ext hstep h0 w).
 Proof. exact hash_iov_fragmentation_independent. Qed.
 Print Assumptions ser_roundtrip_checksum_fragmentation_independent_partial.
+Theorem ser_roundtrip_deserialize_any_fragmentation_iov_partial : forall hstep sh ms x mr v vals wf Fs body,
+  shape_wf sh -> sh_checked sh = false ->
+  lay_fs (sh_fields sh) -> (forall b, psep (aranges_fs (sh_fields sh) b)) ->
+  Forall (fun L => (L <= STRIDE)%Z) (lens ms) ->
+  rd_fs (perm (sh_fields sh)) ms x = Ok (vals, wf, Fs) -> vsums vals -> load ms x (sh_size sh) = Ok body ->
+  inv mr v -> flat mr (i_el v) = Ok (wf ++ body) -> psep (i_el v) ->
+  (i_nb v + 1 + len Fs <= i_cap v)%Z ->
+  exists t st w2 F, deserialize hstep cfg_final sh mr v = Ok (t, st) /\ t <> 0%Z /\
+    ptr_ok (lens (d_mem st)) t (sh_size sh) /\
+    rd_fs (perm (sh_fields sh)) (d_mem st) t = Ok (vals, w2, F) /\
+    flat (d_mem st) (i_el (d_iov st)) = Ok nil /\
+    inv (d_mem st) (d_iov st).
+Proof. exact deserialize_rt_iov. Qed.
+Print Assumptions ser_roundtrip_deserialize_any_fragmentation_iov_partial.
+Theorem ser_roundtrip_deserialize_checked_any_fragmentation_iov_partial : forall hstep,
+  (forall h b, (0 <= h < W32)%Z -> (0 <= b < 256)%Z -> (0 <= hstep h b < W32)%Z) ->
+  forall sh ms x mr v vals wf Fs body,
+  shape_wf sh -> sh_checked sh = true ->
+  lay_fs (sh_fields sh) -> (forall b, psep (aranges_fs (sh_fields sh) b)) ->
+  Forall (fun L => (L <= STRIDE)%Z) (lens ms) ->
+  rd_fs (perm (sh_fields sh)) ms x = Ok (vals, wf, Fs) -> vsums vals -> load ms x (sh_size sh) = Ok body ->
+  le_dec (firstn 4 body) =
+    hash_ext hstep (hash_ext hstep 0 wf) (le_enc 4 (hash_ext hstep 0 wf) ++ skipn 4 body) ->
+  inv mr v -> flat mr (i_el v) = Ok (wf ++ body) -> psep (i_el v) ->
+  (i_nb v + 1 + len Fs <= i_cap v)%Z ->
+  exists t st w2 F, deserialize hstep cfg_final sh mr v = Ok (t, st) /\ t <> 0%Z /\
+    ptr_ok (lens (d_mem st)) t (sh_size sh) /\
+    rd_fs (perm (sh_fields sh)) (d_mem st) t = Ok (vals, w2, F) /\
+    flat (d_mem st) (i_el (d_iov st)) = Ok nil.
+Proof. exact deserialize_rt_checked_iov. Qed.
+Print Assumptions ser_roundtrip_deserialize_checked_any_fragmentation_iov_partial.
+Theorem ser_roundtrip_noiov_unchecked_declared_partial : forall hstep sh ms x sst vals wf0 Fs0 body mr v,
+  shape_wf sh -> sh_checked sh = false ->
+  sup_fs (sh_fields sh) -> lay_fs (sh_fields sh) -> (forall b, psep (aranges_fs (sh_fields sh) b)) ->
+  Forall (fun L => (L <= STRIDE)%Z) (lens ms) ->
+  rd_fs (sh_fields sh) ms x = Ok (vals, wf0, Fs0) -> load ms x (sh_size sh) = Ok body ->
+  serialize hstep cfg_final sh ms x = Ok sst -> s_full sst = false ->
+  inv mr v -> psep (i_el v) -> flat mr (i_el v) = flat (s_mem sst) (i_el (s_iov sst)) ->
+  (i_nb v + 1 + len Fs0 <= i_cap v)%Z ->
+  exists t st w2 F, deserialize hstep cfg_final sh mr v = Ok (t, st) /\ t <> 0%Z /\
+    ptr_ok (lens (d_mem st)) t (sh_size sh) /\
+    rd_fs (sh_fields sh) (d_mem st) t = Ok (vals, w2, F) /\
+    flat (d_mem st) (i_el (d_iov st)) = Ok nil.
+Proof. exact ser_roundtrip_noiov_unchecked_declared. Qed.
+Print Assumptions ser_roundtrip_noiov_unchecked_declared_partial.
+Theorem ser_roundtrip_noiov_checked_declared_partial : forall hstep,
+  (forall h b, (0 <= h < W32)%Z -> (0 <= b < 256)%Z -> (0 <= hstep h b < W32)%Z) ->
+  forall sh ms x sst vals wf0 Fs0 body0 mr v,
+  shape_wf sh -> sh_checked sh = true ->
+  sup_fs (sh_fields sh) -> lay_fs (sh_fields sh) -> (forall b, psep (aranges_fs (sh_fields sh) b)) ->
+  mem_bytes ms -> Forall (fun L => (L <= STRIDE)%Z) (lens ms) -> (0 <= x)%Z ->
+  rd_fs (sh_fields sh) ms x = Ok (vals, wf0, Fs0) -> load ms x (sh_size sh) = Ok body0 ->
+  load ms x 4 = Ok (le_enc 4 0) ->
+  (forall r, In r Fs0 -> sep r (x, 4%Z)) ->
+  serialize hstep cfg_final sh ms x = Ok sst -> s_full sst = false ->
+  (forall e, In e (removelast (i_el (s_iov sst))) -> sep e (x, 4%Z)) ->
+  inv mr v -> psep (i_el v) -> flat mr (i_el v) = flat (s_mem sst) (i_el (s_iov sst)) ->
+  (i_nb v + 1 + len Fs0 <= i_cap v)%Z ->
+  exists t st w2 F, deserialize hstep cfg_final sh mr v = Ok (t, st) /\ t <> 0%Z /\
+    ptr_ok (lens (d_mem st)) t (sh_size sh) /\
+    rd_fs (sh_fields sh) (d_mem st) t = Ok (vals, w2, F) /\
+    flat (d_mem st) (i_el (d_iov st)) = Ok nil.
+Proof. exact ser_roundtrip_noiov_checked_declared. Qed.
+Print Assumptions ser_roundtrip_noiov_checked_declared_partial.
+Theorem crc32c_step_in_range : forall h b, (0 <= h < W32)%Z -> (0 <= b < 256)%Z -> (0 <= crc32c_step h b < W32)%Z.
+Proof. exact crc32c_step_range. Qed.
+Print Assumptions crc32c_step_in_range.
+Theorem ser_roundtrip_noiov_checked_crc32c_partial : forall sh ms x sst vals wf Fs body0 mr v,
+  shape_wf sh -> sh_checked sh = true ->
+  sup_fs (sh_fields sh) -> lay_fs (sh_fields sh) -> (forall b, psep (aranges_fs (sh_fields sh) b)) ->
+  mem_bytes ms -> Forall (fun L => (L <= STRIDE)%Z) (lens ms) -> (0 <= x)%Z ->
+  rd_fs (perm (sh_fields sh)) ms x = Ok (vals, wf, Fs) -> load ms x (sh_size sh) = Ok body0 ->
+  load ms x 4 = Ok (le_enc 4 0) ->
+  (forall r, In r Fs -> sep r (x, 4%Z)) ->
+  serialize crc32c_step cfg_final sh ms x = Ok sst -> s_full sst = false ->
+  (forall e, In e (removelast (i_el (s_iov sst))) -> sep e (x, 4%Z)) ->
+  inv mr v -> psep (i_el v) -> flat mr (i_el v) = flat (s_mem sst) (i_el (s_iov sst)) ->
+  (i_nb v + 1 + len Fs <= i_cap v)%Z ->
+  exists t st w2 F, deserialize crc32c_step cfg_final sh mr v = Ok (t, st) /\ t <> 0%Z /\
+    ptr_ok (lens (d_mem st)) t (sh_size sh) /\
+    rd_fs (perm (sh_fields sh)) (d_mem st) t = Ok (vals, w2, F) /\
+    flat (d_mem st) (i_el (d_iov st)) = Ok nil.
+Proof. exact ser_roundtrip_noiov_checked_crc32c. Qed.
+Print Assumptions ser_roundtrip_noiov_checked_crc32c_partial.
